@@ -79,6 +79,12 @@ class DefaultSchemaOb(StmtOb):
         if self.mech == "override":
             with SQLLineageConfig(DEFAULT_SCHEMA=S):
                 return self.dump(self.script.runner(names))
+        if self.mech == "override_read_after":
+            # analysed inside the scope, every result read after the scope has ended: what was computed under S stays under S
+            with SQLLineageConfig(DEFAULT_SCHEMA=S):
+                lr = self.script.runner(names)
+                lr.source_tables
+            return self.dump(lr)
         import os as real_os
 
         from checks.c15 import EnvShim
@@ -130,6 +136,8 @@ class DefaultSchemaOb(StmtOb):
 
         if self.mech == "override":
             r1 = R.run_real(conc["sql"], self.dialect, config={"DEFAULT_SCHEMA": conc["S"]}, cyto=True)
+        elif self.mech == "override_read_after":
+            r1 = R.run_real(conc["sql"], self.dialect, config={"DEFAULT_SCHEMA": conc["S"]}, cyto=True, read_after_scope=True)
         elif self.mech == "env_in_scope":
             r1 = R.run_real(conc["sql"], self.dialect, env={"SQLLINEAGE_DEFAULT_SCHEMA": conc["S"]},
                             config={"LATERAL_COLUMN_ALIAS_REFERENCE": False}, cyto=True)
@@ -232,7 +240,7 @@ def obligations(tier, seed):
         obs = keep + rnd.sample(rest, len(rest) // 3)
     envs = [DefaultSchemaOb(k, st, "ansi", "env", budget, seed) for k, st in tpl if "/plain" in k and k.startswith(("insert/", "ctas/"))]
     obs += rnd.sample(envs, len(envs) // 2)
-    for mech in ("env_in_scope", "override_over_env"):
+    for mech in ("env_in_scope", "override_over_env", "override_read_after"):
         more = [DefaultSchemaOb(k, st, "ansi", mech, budget, seed) for k, st in tpl if "/plain" in k and k.startswith(("insert/", "ctas/"))]
         obs += rnd.sample(more, max(4, len(more) // (3 if tier == "thorough" else 6)))
     # the legacy analyzer creates its tables elsewhere (sqlparse/models.py): same twin there
